@@ -355,6 +355,64 @@ def char_tables(prog):
     return out, fns
 
 
+def static_tables(prog):
+    """Spelling tables kept as data: for every `static` of the lexer module
+    whose initialiser is an array of `(spelling, Token)` pairs, the pairs —
+    provided some lexer function that answers `Option<Token>` reads the
+    static.  Returns ({static path: [(spelling, variant)]}, {path: readers},
+    [paths whose entries could not all be read])."""
+    tabs, readers, opaque = {}, {}, []
+    for path, j in prog.statics.items():
+        if not j.get("module", "").startswith("lexer"):
+            continue
+        pairs = []
+        bad = False
+        n_tuples = 0
+        for pb in j.get("promoted_bodies", []):
+            tok_of = {}
+            for st in pb["stmts"]:
+                rv = st[2]
+                if rv[0] == "agg" and rv[1].get("k") == "adt" and rv[1].get("adt") == "lexer::Token" and not st[1][1]:
+                    tok_of[st[1][0]] = rv[1]["variant"] if not rv[2] else None
+            for st in pb["stmts"]:
+                rv = st[2]
+                if rv[0] != "agg" or rv[1].get("k") != "tuple" or len(rv[2]) != 2:
+                    continue
+                if "lexer::Token" not in pb["locals"][st[1][0]]:
+                    continue
+                n_tuples += 1
+                k = mir.op_const(rv[2][0])
+                spell = k.get("v") if k else None
+                tok = tok_of.get(mir.op_place(rv[2][1])[0]) if mir.is_place_operand(rv[2][1]) else None
+                if isinstance(spell, str) and tok:
+                    pairs.append((spell, tok))
+                else:
+                    bad = True
+        if not n_tuples:
+            continue
+        rd = []
+        for f in prog.full_fns(generated=False):
+            if not f.module.startswith("lexer"):
+                continue
+            rf = f.root_fn()
+            if not rf.locals or rf.locals[0] != "std::option::Option<lexer::Token>":
+                continue
+            for bb in range(len(f.blocks)):
+                for st in f.stmts(bb):
+                    if st[0] == "=":
+                        for o in mir.rvalue_operands(st[2]):
+                            k = mir.op_const(o)
+                            if k and k.get("static") == path:
+                                rd.append(rf.path)
+        if not rd:
+            continue
+        tabs[path] = pairs
+        readers[path] = sorted(set(rd))
+        if bad:
+            opaque.append(path)
+    return tabs, readers, opaque
+
+
 def rule_R08_3(ctx):
     prog = ctx.prog
     g = ctx.grammar
@@ -364,11 +422,29 @@ def rule_R08_3(ctx):
                    "a character sequence lexed as another operator's token "
                    "silently changes the operator that is parsed")
     tables, fns = char_tables(prog)
-    r.require_floor("lexer symbol-table functions", len(fns), 3)
     punct = {t: v for t, v in g.terminals.items()
              if t and not (t[0].isalpha() or t[0] == "_")}
     r.require_floor("punctuation terminals in the extern block", len(punct), 30)
     got = {"".join(k): v for k, v in tables.items()}
+    # table-driven lexers: `static SYMBOLS: &[(&str, Token)]` read by a lookup
+    stabs, readers, opaque = static_tables(prog)
+    for path, pairs in sorted(stabs.items()):
+        sym = [(sp, tk) for sp, tk in pairs if sp and not (sp[0].isalpha() or sp[0] == "_")]
+        if not sym:
+            continue
+        r.inst("%s: %d punctuation spellings, read by %s" % (path, len(sym), readers[path]))
+        r.unproven.append("%s: the lookup predicate of %s is taken to match a spelling exactly "
+                          "(the table's content is checked, the matching loop is not)" % (path, readers[path]))
+        if path in opaque:
+            r.fail("%s | table entries not readable" % path,
+                   "some entries of the spelling table %s are not (string literal, unit Token) pairs" % path)
+        for sp, tk in sym:
+            got.setdefault(sp, set()).add(tk)
+        dup = sorted(set(sp for sp, _ in sym if [x for x, _ in sym].count(sp) > 1))
+        if dup:
+            r.fail("%s | duplicate spellings %s" % (path, ",".join(dup)),
+                   "the spelling table lists %s more than once" % dup)
+    r.require_floor("character sequences the lexer's symbol tables recognise", len(got), 30)
     r.inst("lexer tables: %d sequences; grammar punctuation terminals: %d" % (len(got), len(punct)))
     for t, v in sorted(punct.items()):
         gv = got.get(t)
